@@ -177,8 +177,9 @@ class BaseLoss(object):
         # but the observed array t does not include the initial value
         # so we first check the type
         self._observeT = t.copy()
-        # and insert the initial value
-        self._t = np.insert(t, 0, t0)
+        # and insert the initial value (as floats: inserting into an integer
+        # array would truncate a fractional initial time)
+        self._t = np.insert(np.asarray(t, dtype=float), 0, t0)
         # and length
         self._numTime = len(self._t)
 
